@@ -1545,8 +1545,11 @@ impl WalletSim {
                 Err(e) => return Err(Violation::new("rewind_within_pruning_depth_succeeds", format!("truncate_to_height({d}) failed during reorg handling: {e}"))),
             }
         }
-        // 1c. subtree roots, as at the start of every sync session
-        self.refresh_roots_if_stale(ctx)?;
+        // 1c. subtree roots are downloaded at the start of a sync session, not at every iteration of its loop: a reorg
+        // met in mid-session is handled by the rewind alone (a third of the iterations start a session)
+        if ctx.seq % 3 == 0 {
+            self.refresh_roots_if_stale(ctx)?;
+        }
         // 2. tell the wallet the tip
         let tip = self.chain.tip();
         if self.tip_told != Some(tip) {
